@@ -67,7 +67,8 @@ fn gen_frame(len: usize, seed: usize) -> Vec<u8> {
 
 pub fn judge(case: &Case, acc: &mut Acc) {
     acc.validated += 1;
-    let mut buf = TcpBuffer::new();
+    // new() and Default::default() are the same empty buffer
+    let mut buf = if case.text.len() % 2 == 0 { TcpBuffer::new() } else { TcpBuffer::default() };
     let mut pushed: Vec<u8> = Vec::new();
     let mut pos = 0usize;
     let mut pulled = 0usize;
